@@ -864,7 +864,7 @@ class CSSParser:
                 FutureWarning
             )
         contains_own = pseudo == ":-soup-contains-own"
-        values = css_unescape(m.group('values'))
+        values = m.group('values')
         patterns = []
         for token in RE_VALUES.finditer(values):
             if token.group('split'):
